@@ -168,6 +168,17 @@ Definition conn_eqb (a b : list (string * string)) : bool :=
 Definition source_complete (scopes : list (option scope)) (src : canon) (t : btree) : bool :=
   forallb (fun p => match cwalk scopes src p with Some _ => true | None => false end) (paths t).
 
+(* does the written source bring along a member the child's port does NOT have?  Such a connection refers to a non-existent
+   bundle member: the implementation refuses it (C02), so a rejection is not a C10 violation *)
+Definition source_no_extra (scopes : list (option scope)) (src : canon) (t : btree) : bool :=
+  match to_anon scopes src with
+  | Some a => match flatten_anon a with
+              | Ok psc => forallb (fun p => existsb (path_eqb p) (paths t)) (map fst psc)
+              | Error _ => true
+              end
+  | None => true
+  end.
+
 Definition sum_paths (insts : list (bool * btree)) : nat := fold_right (fun x a => (length (paths (snd x)) + a)%nat) O insts.
 
 Definition others_names (insts : list (bool * btree)) (k : nat) : list string :=
@@ -189,7 +200,7 @@ Definition chk (c : case) : Z :=
               | Error _ => 0
               | Ok (out, _) =>
                   let scopes := map (fun x => model_scope_of pns insts (fst x)) (combine (seq O (length insts)) insts) in
-                  if wf_tree t && forallb (fun x => wf_tree (snd x)) insts && source_complete scopes src t then 1 else 0
+                  if wf_tree t && forallb (fun x => wf_tree (snd x)) insts && source_complete scopes src t && source_no_extra scopes src t then 1 else 0
               end
           end
       end
@@ -227,7 +238,7 @@ Definition chk (c : case) : Z :=
                 match model_scope_of ns [(port, t)] O, to_anon mscopes src with
                 | Some mc, Some a =>
                     match flatten_anon a with
-                    | Ok psc => match replace_bundle_conn mc psc with Ok cs => conn_eqb cs conns | Error _ => false end
+                    | Ok psc => match replace_bundle_conn_checked mc psc with Ok cs => conn_eqb cs conns | Error _ => false end
                     | Error _ => false
                     end
                 | _, _ => false
